@@ -2549,6 +2549,17 @@ unit(name="SrcFmdAllSmems", props="property C06", file="src/data_structures/fmin
 #   * every `for` loop is a recursive helper `<fn>_for<k>` (also those without a jump)
 # Everything else is refused as in the other dialects.
 
+# ---- genfmd: `shortest_unique_substrings` (C03).  The suffix array is read at the slice instance of `SuffixArray`
+# (`get(i)` = `pos[i]?`), the LCP array (`SmallInts<i8, isize>`) as the vector of its values (`get(i)` = `lcp[i]?`: the
+# container theorem `lcp_container_source_exact` of Thm/C03.lean says that the translated container reads back like one)
+unit(name="SrcSus", props="property C03", file="src/data_structures/suffix_array.rs", dialect="fmd",
+     functions=[dict(name="shortest_unique_substrings", lean="sus",
+                     header="pub fn shortest_unique_substrings<SA: SuffixArray>(pos: &SA, lcp: &LCPArray) -> Vec<Option<usize>>",
+                     aliases={"SA": "[usize]", "LCPArray": "[isize]"},
+                     params=[("pos", "&SA"), ("lcp", "&LCPArray")], ret="Vec<Option<usize>>",
+                     locals={"sus": "Vec<Option<usize>>", "len": "usize"},
+                     theorem="RbV.Thm.GenSrcSus.sus_eq_model")])
+
 _FMD = {}
 
 
@@ -2743,6 +2754,14 @@ def _fmd_classes():
                     n = len(rt.fields)
                     code.bind(t, ("call", f["lean"] + "".join(" " + atom_(proj_(r, i, n)) for i in range(n))))
                     return t, self.ty_of_text(f["ret"])
+            if e.name == "get" and len(e.args) == 1:
+                rt = self.dry(e.recv)
+                if isinstance(rt, cb.TSeq):
+                    r, _ = self.expr(e.recv, code)
+                    i, it = self.expr(e.args[0], code, cb.TInt("usize"))
+                    if it != cb.TInt("usize"):
+                        self.err("`.get(%r)`" % (it,), e)
+                    return "%s[%s]?" % (atom_(r), i), cf.TOpt(rt.elem)
             return BaseX.mcall(self, e, code, expected)
 
         def _reads(self, n, out):
@@ -2752,6 +2771,18 @@ def _fmd_classes():
                     and "self." + ".".join(self.self_chain(strip_(n.recv))) + "." + n.name in self.absfns:
                 return self._reads(n.args, out)
             return BaseX._reads(self, n, out)
+
+        def call(self, e, code, expected):
+            path = "::".join(e.path)
+            if path in ("max", "min", "cmp::max", "cmp::min", "std::cmp::max", "std::cmp::min") and len(e.args) == 2 \
+                    and (self.signed(e.args[0]) or self.signed(e.args[1])):
+                ty_ = self.dry(e.args[0]) if self.signed(e.args[0]) else self.dry(e.args[1])
+                l, lt = self.expr(e.args[0], code, ty_)
+                r, rt = self.expr(e.args[1], code, ty_)
+                if lt != rt or not isinstance(lt, TSInt):
+                    self.err("`%s` on %r and %r" % (path, lt, rt), e)
+                return "%s %s %s" % (e.path[-1], atom_(l), atom_(r)), lt
+            return BaseX.call(self, e, code, expected)
 
         # ------------------------------------------------------------ statements
         def _mut_expr(self, e, decl, out):
